@@ -42,6 +42,9 @@ func main() {
 				}
 			}
 			paths, unsup := c.simulate(fd, inl)
+			if os.Getenv("SIMINDEX") != "" {
+				paths, unsup = c.simulateIndexed(fd)
+			}
 			fmt.Printf("%s: %d paths, unsupported=%q\n", *simdump, len(paths), unsup)
 			for i, p := range paths {
 				fmt.Printf("-- path %d\n", i)
